@@ -34,6 +34,16 @@ pub enum Ref {
     Item { id: Id, via: Codec },
     /// literal bytes (a corrupted / forged message or stored state)
     Lit { kind: Kind, codec: Codec, bytes: Hex },
+    /// a message the adversary assembles from byte ranges of the native
+    /// encodings of messages it has observed (ranges are clipped to the item)
+    Splice { kind: Kind, parts: Vec<Part> },
+}
+
+#[derive(Clone, Debug, Serialize, Deserialize, PartialEq, Eq)]
+pub struct Part {
+    pub id: Id,
+    pub from: usize,
+    pub to: usize,
 }
 
 impl Ref {
@@ -175,6 +185,11 @@ impl Op {
                 _ => None,
             })
             .collect();
+        for r in self.refs() {
+            if let Ref::Splice { parts, .. } = r {
+                v.extend(parts.iter().map(|p| p.id));
+            }
+        }
         match self {
             Op::SpliceSetup { seed_from, key_from, .. } => {
                 v.push(*seed_from);
@@ -544,6 +559,17 @@ impl<'a> Exec<'a> {
                         })
                     }
                 }
+            }
+            Ref::Splice { kind, parts } => {
+                let mut b = vec![];
+                for p in parts {
+                    let n = &self.slots.get(&p.id)?.native;
+                    let to = p.to.min(n.len());
+                    b.extend_from_slice(n.get(p.from.min(to)..to)?);
+                }
+                Stats::bump(&mut self.stats.faults, "spliced_message_delivery");
+                let lit = Ref::Lit { kind: *kind, codec: Codec::Native, bytes: Hex(b) };
+                self.resolve(&lit, want)
             }
             Ref::Lit { kind, codec, bytes } => {
                 Stats::bump(&mut self.stats.faults, "literal_bytes_delivery");
